@@ -4,6 +4,7 @@ import (
 	"context"
 	"errors"
 	"fmt"
+	"math/rand/v2"
 	"strings"
 	"time"
 
@@ -86,6 +87,9 @@ func (s c18Script) String() string {
 	return fmt.Sprintf("k=%d ending=%s rate=%s ctx=%s", s.k, s.ending, s.rate, c18CtxKinds[s.ctxKind])
 }
 
+// rngC18 is a tiny deterministic chooser (the scripts are replayed identically).
+func rngC18(n int) *rand.Rand { return newRand(uint64(n)*2654435761 + 17) }
+
 func nestFatal(err error, depth int) error {
 	for i := 0; i < depth; i++ {
 		err = bigbuff.FatalError(err)
@@ -118,6 +122,11 @@ func runC18Script(c *core.Ctx, s c18Script, maxSlot map[int]int64) {
 		if calls <= s.k {
 			if calls%3 == 2 {
 				return resultOf(calls), c18MultiErr{errC18Plain, errC18Base} // plain error of an uncomparable type
+			}
+			if calls%5 == 1 {
+				// the operation's own (per-attempt) context ran out: a plain error like any other, the retry's
+				// context is as live as before
+				return resultOf(calls), core.Pick(rngC18(calls), error(context.DeadlineExceeded), error(context.Canceled), fmt.Errorf("attempt %d: %w", calls, context.DeadlineExceeded))
 			}
 			return resultOf(calls), errC18Plain
 		}
@@ -283,7 +292,7 @@ func c18RandomLong(c *core.Ctx) {
 		s := c18Script{
 			k:       9 + c.Rng.IntN(40),
 			ending:  core.Pick(c.Rng, "success", "fatal2", "cancel-in-call-err", "cancel-in-wait", "cancel-in-call-ok"),
-			rate:    core.Pick(c.Rng, time.Duration(0), time.Nanosecond, 7*time.Nanosecond, time.Microsecond, 300*time.Millisecond),
+			rate:    core.Pick(c.Rng, time.Duration(0), time.Nanosecond, 7*time.Nanosecond, time.Microsecond, 300*time.Millisecond, 2200*time.Millisecond, 3*time.Second+1, 1500000001*time.Nanosecond, 333333333*time.Nanosecond, c18MaxRate),
 			twice:   c.Rng.IntN(2) == 0,
 			ctxKind: c.Rng.IntN(len(c18CtxKinds)),
 		}
